@@ -204,6 +204,8 @@ class Run:
             else:
                 body = {"property": prop, "engine": r.get("_label", ""), "sub": sub, "seed": self.seed,
                         "key": key, "what": v.get("what", ""), "case": v.get("case")}
+                if r.get("_params"):
+                    body["engine_params"] = r["_params"]
                 h = hashlib.sha1(json.dumps([sub, key, body["case"]], sort_keys=True).encode()).hexdigest()[:12]
                 d = os.path.join(ROOT, "replays", "found", prop)
                 os.makedirs(d, exist_ok=True)
